@@ -88,7 +88,7 @@ def motions(seed):
             M = np.zeros((3, 3))
             for i, p in enumerate(perm):
                 M[i, p] = signs[i]
-            if abs(np.linalg.det(M) - 1) < 1e-9:
+            if not (abs(np.linalg.det(M) - 1) >= 1e-9):
                 octa.append(M)
     gen = [rot((1, 2, 3), 0.7 + 0.13 * seed), rot((-2, 1, 0.5), 2.1 + 0.07 * seed), rot((0.3, -1, 2), 4.4 + 0.05 * seed)]
     ms = [(M, np.zeros(3)) for M in octa[1:] + gen]
@@ -165,12 +165,12 @@ def config_worker(part, chunk, seed, full_motions_every):
                     if dw > 2e-4:
                         part.fail("weight-value:bg=%g" % bg, "stockholder weight deviates by %.3g from interior/(interior+exterior+background) for %s | %s, background %g"
                                   % (dw, list(zs[A]), list(zs[B]), bg), case)
-                    if w.min() < 0 or w.max() > 1 + 1e-6:
+                    if not (w.min() >= 0) or not (w.max() <= 1 + 1e-6):
                         part.fail("weight-range", "weight outside [0,1]", case)
                     if bg == 0.0:
                         s2 = StockholderWeight.from_arrays(zs[B], sites[B], zs[A], sites[A])
                         w2 = np.asarray(s2.weights(pts), dtype=np.float64)
-                        if np.abs(w + w2 - 1).max() > 1e-5:
+                        if not (np.abs(w + w2 - 1).max() <= 1e-5):
                             part.fail("weight-complement", "complementary weights do not sum to one (dev %.3g)" % np.abs(w + w2 - 1).max(), case)
         # rigid motions applied to atoms and points together
         use = ms if idx % full_motions_every == 0 else [ms[(idx * 7 + j) % len(ms)] for j in range(3)]
@@ -239,7 +239,7 @@ def batch_worker(part, sizes):
         if len(badw):
             part.fail("batch-dependence:weights", "weights of a list of %d points differ from the same points evaluated in blocks of 1000 at %d index(es), first %d: %.6g vs %.6g"
                       % (N, len(badw), badw[0], w[badw[0]], ref_w[badw[0]]), case)
-        if np.abs(w + w2 - 1).max() > 1e-5:
+        if not (np.abs(w + w2 - 1).max() <= 1e-5):
             part.fail("weight-complement", "complementary weights of a list of %d points do not sum to one at index %d" % (N, int(np.argmax(np.abs(w + w2 - 1)))), case)
         part.outcome(("batch", N > 65536, N % 2))
 
@@ -295,7 +295,7 @@ def far_worker(part, job):
                           % (list(dists), how, w[ok][k], wref[k], np.round(pts[ok][k], 3)), case)
             if np.nanmin(w) < 0 or np.nanmax(w) > 1 + 1e-6:
                 part.fail("far:weight-range:" + how, "weight outside [0,1] in an extended cluster", case)
-            if np.abs(w[ok] + w2[ok] - 1).max() > 1e-5:
+            if not (np.abs(w[ok] + w2[ok] - 1).max() <= 1e-5):
                 part.fail("far:weight-complement:" + how, "complementary weights of an extended cluster sum to %.6f at worst" % float((w[ok] + w2[ok])[np.argmax(np.abs(w[ok] + w2[ok] - 1))]), case)
         part.tr()
         got = np.asarray(PromoleculeDensity((np.concatenate([zi, ez]), allsites)).rho(pts), dtype=np.float64)
@@ -407,13 +407,13 @@ def argument_history_worker(part, _):
                 want, alt = interp.promolecule_rho(zs, sites.astype(np.float32).astype(np.float64), p64)
                 keep = np.min(np.linalg.norm(p64[:, None, :] - np.vstack([sites, ext])[None, :, :], axis=2), axis=1) >= 0.3
                 got = np.asarray(d.rho(arr), dtype=np.float64)
-                if relerr(got[keep], want[keep], alt[keep]) > REL:
+                if not (relerr(got[keep], want[keep], alt[keep]) <= REL):
                     part.fail("argument-history:rho", "rho of the same %s %s array object after its contents were changed in place (step %d) is not the density at the current coordinates"
                               % ("read-only" if readonly else "writable", np.dtype(dtype).name, step), case)
                     break
                 wa, _ = interp.promolecule_rho(ez, ext.astype(np.float32).astype(np.float64), p64)
                 w = np.asarray(sw.weights(arr), dtype=np.float64)
-                if np.abs(w[keep] - want[keep] / (want[keep] + wa[keep])).max() > 2e-4:
+                if not (np.abs(w[keep] - want[keep] / (want[keep] + wa[keep])).max() <= 2e-4):
                     part.fail("argument-history:weights", "weights of the same %s %s array object after its contents were changed in place (step %d) are not the weights at the current coordinates"
                               % ("read-only" if readonly else "writable", np.dtype(dtype).name, step), case)
                     break
